@@ -378,7 +378,8 @@ def rule_P_SKELETON(ctx, floor=30):
         r = ref.get(name)
         site = "%s:%s" % (it["span"]["file"], it["span"]["line"])
         if r is None:
-            ctx.ob("P-SKELETON", name, False, "new consuming function without a reviewed production", site)
+            # a function added next to the reviewed ones is not evidence against the property (control: a new unrelated API); it is listed
+            ctx.extra.setdefault("unreviewed_new_functions", []).append(name)
             continue
         d = diff(r["skeleton"], s)
         ctx.ob("P-SKELETON", name, d is None, d or "", site)
